@@ -17,7 +17,7 @@ import (
 // oracle ownership: which oracle names count as violations of which property.
 var e1Owners = map[string][]string{
 	"C01": {"delivery", "flush", "completeness", "fault-send-ok"},
-	"C02": {"crosstalk", "foreign-error", "isolation", "handler-twice"},
+	"C02": {"crosstalk", "foreign-error", "isolation", "handler-twice", "probe", "client-stuck", "server-dropped"},
 	"C04": {"cancel-hang", "cancel-error", "cancel-later-op", "cancel-peer", "probe", "close-hang"},
 	"C05": {"fault-hang", "fault-closed", "fault-delivery", "panic", "fault-newstream", "fault-send-ok"},
 	"C06": {"probe", "stuck-connection"},
@@ -102,7 +102,8 @@ func (x *e1) afterRecv(sd *sideRec, rr *recvRec) {
 		}
 		return
 	}
-	if sd.FirstErr != nil {
+	twoRecv := (sd.client && r.Spec.TwoRecvC) || (!sd.client && r.Spec.TwoRecvH)
+	if sd.FirstErr != nil && !twoRecv {
 		x.deliveryViol("after-error", "message delivered after a receive error", fmt.Sprintf("rpc%d %s", k, msgDescribe(rr.Data)))
 	}
 	b := rr.Data
@@ -151,6 +152,29 @@ func (x *e1) afterRecv(sd *sideRec, rr *recvRec) {
 	_, _, sender, seq, _, ok := msgHeader(b)
 	if !ok {
 		x.deliveryViol("corrupt", fmt.Sprintf("%s received garbled message", side), fmt.Sprintf("rpc%d %s", k, msgDescribe(b)))
+		return
+	}
+	if (sd.client && r.Spec.TwoRecvC) || (!sd.client && r.Spec.TwoRecvH) {
+		// two concurrent receivers: each message goes to exactly one of them; the
+		// order in which their calls return is not the delivery order
+		key := sender<<16 | seq
+		if sd.seen == nil {
+			sd.seen = map[int]bool{}
+		}
+		if sd.seen[key] {
+			x.deliveryViol("duplicate-or-reorder", fmt.Sprintf("%s received the same message twice (two receivers)", side), fmt.Sprintf("rpc%d sender=%d seq=%d", k, sender, seq))
+			return
+		}
+		sd.seen[key] = true
+		for _, s := range ps {
+			if s.Op.Sender == sender && s.Op.Seq == seq {
+				if !bytes.Equal(b, s.Bytes) {
+					x.deliveryViol("corrupt", fmt.Sprintf("%s received corrupt message", side), fmt.Sprintf("rpc%d got %s want %s", k, msgDescribe(b), msgDescribe(s.Bytes)))
+				}
+				return
+			}
+		}
+		x.deliveryViol("extra", fmt.Sprintf("%s received a message that was never sent", side), fmt.Sprintf("rpc%d %s", k, msgDescribe(b)))
 		return
 	}
 	want := sd.nextSeq[sender]
@@ -359,6 +383,8 @@ func whereClass(label string) string {
 		return "net"
 	case strings.HasPrefix(label, "listener."):
 		return "listener.accept"
+	case strings.HasPrefix(label, "mutex:"):
+		return "lock:" + label[6:]
 	case label == "mutex" || label == "mutex-retry" || label == "lock" || label == "unlock" || label == "trylock":
 		return "lock"
 	case strings.HasPrefix(label, "cond:"):
@@ -637,12 +663,15 @@ func (x *e1) checkEnd(connAlive bool, faultFree bool) {
 	}
 
 	x.checkMetaWire()
+	x.checkServerDropped()
 
 	for _, r := range x.recs {
 		spec := r.Spec
 		k := spec.Idx
-		// C10: handler errors reach the caller intact
-		if spec.HRet == RetErr && !spec.Unknown && !r.Cancelled && faultFree && connAlive && r.HReturned {
+		// C10: handler errors reach the caller intact. Decided whenever the error
+		// packet was consumed by the client's connection reader (byte accounting on
+		// the server's wire), even if the connection went away afterwards.
+		if spec.HRet == RetErr && !spec.Unknown && !r.Cancelled && !x.byz && !x.ioFired() && r.HReturned && x.pooled == nil && x.errConsumed(r) {
 			var got error
 			if spec.Shape == ShUnary {
 				if r.InvokeDone {
@@ -654,13 +683,14 @@ func (x *e1) checkEnd(connAlive bool, faultFree bool) {
 			} else if !r.C.ClosedByMe || r.C.CloseStep > r.HRetStep {
 				got = r.C.FirstErr
 			}
-			if got != nil && !(r.C.ClosedByMe && got.Error() != spec.HErr.Msg) {
-				if got.Error() != spec.HErr.Msg || errCode(got) != spec.HErr.Code {
+			wantText := buildErr(spec.HErr).Error()
+			if got != nil && !(r.C.ClosedByMe && got.Error() != wantText) {
+				if got.Error() != wantText || errCode(got) != spec.HErr.Code {
 					// a client that closed or half-broke the stream itself may see its own error
 					if !(spec.Misbehaved && !isHandlerText(got)) {
-						x.viol("handler-error", fmt.Sprintf("client error differs from handler error: text-equal=%v code-equal=%v",
-							got.Error() == spec.HErr.Msg, errCode(got) == spec.HErr.Code),
-							fmt.Sprintf("rpc%d got %q code=%d want %q code=%d", k, trunc(got.Error(), 50), errCode(got), trunc(spec.HErr.Msg, 50), spec.HErr.Code))
+						x.viol("handler-error", fmt.Sprintf("client error differs from handler error: text-equal=%v code-equal=%v got-class=%s",
+							got.Error() == wantText, errCode(got) == spec.HErr.Code, errClass(got)),
+							fmt.Sprintf("rpc%d got %q code=%d want %q code=%d", k, trunc(got.Error(), 50), errCode(got), trunc(wantText, 50), spec.HErr.Code))
 					}
 				}
 			}
@@ -954,4 +984,39 @@ func (x *e1) checkFaultContainment() {
 		}
 		x.viol(o, "an rpc issued after the connection failed or was closed succeeded", "")
 	}
+}
+
+// errConsumed reports whether the error packet the server wrote for rpc r has been
+// read completely by the client's connection reader.
+func (x *e1) errConsumed(r *rpcRec) bool {
+	want := buildErr(r.Spec.HErr).Error()
+	for _, p := range x.monS.Packets {
+		if p.Kind == kError && len(p.Data) >= 8 && string(p.Data[8:]) == want {
+			return x.cep.Delivered >= p.EndOff
+		}
+	}
+	return false
+}
+
+// checkServerDropped (C02): with a soft-cancelling client, no transport fault, no
+// close, no timeout and no hostile input, nothing a client does on one rpc may make
+// the SERVER end the connection (that would fail every later rpc).
+func (x *e1) checkServerDropped() {
+	if !x.serveDone || x.serveStep == 0 || x.phase == "q4" || x.pooled != nil {
+		return
+	}
+	if !x.prog.Cfg.SoftC || x.prog.Cfg.Serve || x.prog.Cfg.Inactivity > 0 || x.byz || x.ioFired() || x.transportClosedByHarness() || x.closeStep > 0 {
+		return
+	}
+	if x.cep.IsClosed() && (!x.sep.IsClosed() || x.cep.ClosedAt <= x.sep.ClosedAt) {
+		return // the client side ended the connection first (e.g. a busy soft cancel falls back to closing)
+	}
+	cls := "nil"
+	if x.serveErr != nil {
+		cls = errClass(x.serveErr)
+		if strings.Contains(x.serveErr.Error(), "protocol error") {
+			cls = "protocol"
+		}
+	}
+	x.viol("server-dropped", "server ended the connection although the client only made calls and soft cancels: serve-error-class="+cls, errStr(x.serveErr))
 }
